@@ -484,6 +484,7 @@ func (pi *pkgInstr) isAtomicCall(c *ast.CallExpr) bool {
 var ExtraGuarded = map[string]bool{
 	"engine.monitorBase":    true, // under its root monitor's lock
 	"pool.ThreadPoolWorker": true,
+	"pool.DefaultTaskQueue": true, // under the pool's queueLock
 }
 
 func isSyncType(t types.Type) bool {
